@@ -7,7 +7,7 @@ From Coq Require Import String List Bool.
 From Coq Require Import ZArith.
 From NG Require Import Gen.C16Consts Pipe.GenLog Pipe.GenLog_proofs Pipe.Options Pipe.Options_proofs
                        Pipe.OptionsLog_proofs
-                       Pipe.FlowCheck Pipe.FlowCheck_proofs Pipe.OptGuards Pipe.OptGuards_proofs Gen.C01Flows Gen.C16Flows.
+                       Pipe.FlowCheck Pipe.FlowCheck_proofs Pipe.OptGuards Pipe.OptGuardsEnv Pipe.OptGuards_proofs Gen.C01Flows Gen.C16Flows.
 Import ListNotations.
 Open Scope string_scope.
 Open Scope list_scope.
